@@ -55,7 +55,6 @@ func tablesMain(args []string) {
 	}
 }
 
-
 // ---------------- C03: calibration of the attack grammar (run once, result committed) ----------------
 
 var calPrefixes = []string{"1", "1)", "1))", "1'", "x'", "1')", "x')", "1\"", "x\"", "1\")", "-1", "1.0", "0x1", "@a", "''", "x' "}
